@@ -17,6 +17,7 @@ Python never judges: it maps abstract events to calls, records, and builds signa
 import json
 import os
 import random
+from concurrent.futures import ThreadPoolExecutor
 
 from .. import recstore_common as rc
 from .. import tracecheck
@@ -599,18 +600,18 @@ def mechanism(ctx):
     def consts(depth, keep, export_at, **dev):
         return dict(base, MaxDepth=depth, KeepHist=keep, ExportAt=export_at, **dev)
 
-    ctx.tlc("RecStoreMech.tla", what="mechanism invariants (repaired variant, depth %d)" % M["depth"],
-            cfg_text=cfg(constants=consts(M["depth"], False, 99), invariants=MECH_INVS, properties=["AppendOnly"],
-                         constraints=["Bounded"]),
-            workers=16, require=MECH_REQUIRE, timeout=3000)
-    for dev, (inv, _) in sorted(MECH_DEVIATIONS.items()):
-        if inv is None:
-            continue
+    def invariants():
+        ctx.tlc("RecStoreMech.tla", what="mechanism invariants (repaired variant, depth %d)" % M["depth"],
+                cfg_text=cfg(constants=consts(M["depth"], False, 99), invariants=MECH_INVS, properties=["AppendOnly"],
+                             constraints=["Bounded"]),
+                workers=16, require=MECH_REQUIRE, timeout=3000)
+
+    def violates(dev, inv):
+        # (stops at the violation: one worker, so that the state count does not depend on the schedule)
         r = ctx.tlc("RecStoreMech.tla", what="mechanism self-test: %s=FALSE violates %s" % (dev, inv),
                     cfg_text=cfg(constants=consts(M["depth"], False, 99, **{dev: False}), invariants=[inv],
                                  constraints=["Bounded"]),
-                    workers=1, allow_violation=True, coverage=False, timeout=3000)   # (stops at the violation: one worker, so
-        #                                                                   that the state count does not depend on the schedule)
+                    workers=1, allow_violation=True, coverage=False, timeout=3000)
         if inv not in r.violated:
             raise MachineryError("mechanism self-test: %s=FALSE does not violate %s" % (dev, inv))
 
@@ -628,29 +629,42 @@ def mechanism(ctx):
             raise MachineryError("mechanism tour exported nothing")
         nedges = len(behs)
         behs = maximal_raw(behs)      # an edge history that is a proper prefix of another one is judged as part of it
-        saved = ctx.traces
         rej = tracecheck.validate(ctx, "RecStoreTrace.tla", [{"id": i + 1, "ev": b} for i, b in enumerate(behs)],
                                   what="mechanism behaviours judged by RecStoreTrace: " + what,
                                   constants={"Paths": {1}, "Handles": {1}})
-        ctx.traces = saved           # behaviours of a model, not of the implementation
         clauses = {}
-        for rid, failing in rej.items():
+        for rid, failing in sorted(rej.items()):
             _, cl, _ = parse_failing(failing)
             if "spec_invariant" in cl or "out_of_scope" in cl:
                 raise MachineryError("mechanism behaviour outside RecStoreTrace's scope: %s" % failing)
             for c in cl:
                 clauses[c] = clauses.get(c, 0) + 1
+        clauses = dict(sorted(clauses.items()))
         ctx.log("mechanism tour %-40s %d edges, %d maximal behaviours, %d rejected %s" % (what, nedges, len(behs), len(rej),
                                                                                          clauses or ""))
         return len(behs), len(rej), clauses
 
-    n, nrej, clauses = tour("repaired variant refines RecStore", M["tour_depth"])
+    # the runs are independent: a few at a time (JVM start-up dominates them)
+    jobs = [("inv", invariants, ())]
+    jobs += [("violates " + dev, violates, (dev, inv)) for dev, (inv, _) in sorted(MECH_DEVIATIONS.items()) if inv]
+    jobs += [("tour repaired", tour, ("repaired variant refines RecStore", M["tour_depth"]))]
+    saved_traces, first_run = ctx.traces, len(ctx.tlc_runs)
+    with ThreadPoolExecutor(4) as ex:
+        futs = {name: ex.submit(fn, *args) for name, fn, args in jobs}
+        for dev in sorted(MECH_DEVIATIONS):
+            futs["tour " + dev] = ex.submit(lambda d=dev: tour("%s=FALSE is rejected" % d, M["dev_depth"],
+                                                               **dict(small, **{d: False})))
+        results = {name: f.result() for name, f in futs.items()}
+    ctx.traces = saved_traces                   # behaviours of a model, not of the implementation
+    ctx.tlc_runs[first_run:] = sorted(ctx.tlc_runs[first_run:], key=lambda r: r["what"])   # completion order -> fixed order
+
+    n, nrej, clauses = results["tour repaired"]
     if nrej:
         raise MachineryError("the repaired mechanism model does not refine RecStore: %d of %d behaviours rejected %s" %
                              (nrej, n, clauses))
     summary = {"repaired": {"behaviours": n, "rejected": 0}}
     for dev, (_, want) in sorted(MECH_DEVIATIONS.items()):
-        n, nrej, clauses = tour("%s=FALSE is rejected" % dev, M["dev_depth"], **dict(small, **{dev: False}))
+        n, nrej, clauses = results["tour " + dev]
         if not nrej or not (want & set(clauses)):
             raise MachineryError("mechanism self-test: deviation %s=FALSE not rejected as expected (%d rejected, %s)" %
                                  (dev, nrej, clauses))
